@@ -34,7 +34,8 @@ func H_C09_VarintDecEnc() {
 	b := zzverif.Bytes("b", L)
 	v, n := VULe(b)
 	le, n2 := VLen(b)
-	zzverif.Assert("C09.varint.agree", n == n2)
+	// VLen is the length-typed reader: it agrees with VULe except that it refuses values that cannot be a length
+	zzverif.Assert("C09.varint.agree", n == n2 && int(v) == le || n2 == 0 && le == 0 && (n == 0 || v >= 1<<31))
 	if n == 0 {
 		zzverif.Reach("refused")
 		return
